@@ -22,9 +22,9 @@ from ..lib import make_evaluator
 ID = "C17"
 LEVEL = "fault_enumeration"
 RULE = (
-    "(a) initial output file in {absent, empty, header only, header + row of s1, header + all rows, header + stale buffer with a claim} x session 1 (constructor + evaluate(s1) + evaluate(s2), optionally ending with its atexit callbacks) killed "
+    "(a) initial output file in {absent, empty, header only, header + row of s1, header + all rows, header + stale buffer with a claim} x session 1 (constructor + evaluate(s1) + evaluate(s3) where s3 has an empty prediction and therefore blank cells in its row, optionally ending with its atexit callbacks) killed "
     "before operation k for every k (or not at all) x session 2 likewise x final complete session resubmitting all subjects (thorough: 3 subjects, 4 sessions); "
-    "(b) BFS over histories of operations {new A, new B (sibling in the same directory), new C, restart A (new object on A's file without exit), X.evaluate(s1|s2), exit(X)} for three file-naming schemes (x/y, study.fold1/study.fold2, model/model.v1.0/model_2) up to depth 6 (thorough 8) with state = file system contents + live aggregators; "
+    "(b) BFS over histories of operations {new A, new B (sibling in the same directory), new C, restart A (new object on A's file without exit), X.evaluate(s1|s3), exit(X)} for three file-naming schemes (x/y, study.fold1/study.fold2, model/model.v1.0/model_2) up to depth 6 (thorough 8) with state = file system contents + live aggregators; "
     "(c) every sequential history of length <= 3 replayed on a real temporary directory and on the in-memory file system (identical final bytes). "
     "non-trivial = a history in which at least one session was killed after its first write, or two aggregators are alive; distinct by (initial state, crash points) / explored state"
 )
@@ -98,11 +98,13 @@ def initial_files(init, subjects):
     if init == "header+all":
         return {OUT: ref["header_line"] + "".join(ref["lines"][s] for s in subjects)}
     if init == "header+stale_buffer":
-        return {OUT: ref["header_line"] + ref["lines"]["s1"], "/vfs/d/out_panoptica_aggregator_tmp.tsv": "subject_name\ns1\ns2\n", "/vfs/d/panoptica_aggregator_tmp.tsv": "subject_name\ns1\ns2\n"}
+        stale = "subject_name\n" + "".join(s + "\n" for s in subjects)
+        return {OUT: ref["header_line"] + ref["lines"]["s1"], "/vfs/d/out_panoptica_aggregator_tmp.tsv": stale, "/vfs/d/panoptica_aggregator_tmp.tsv": stale}
     raise ValueError(init)
 
 
 LAST_ERROR: list = []
+GRAVEYARD: list = []  # objects of killed processes: never finalized (a kill runs no finalizer, no __del__, no atexit)
 
 
 def session(subjects, crash_at, with_exit, out=OUT):
@@ -121,6 +123,8 @@ def session(subjects, crash_at, with_exit, out=OUT):
             vfs.crash_now()
 
     vfs.on_op = hook
+    ev = A = None
+    clean_exit = False
     try:
         ev = _make_ev()
         A = Panoptica_Aggregator(ev, out)
@@ -128,11 +132,19 @@ def session(subjects, crash_at, with_exit, out=OUT):
             A.evaluate(DATA[s][0].copy(), DATA[s][1].copy(), s)
         if with_exit:
             agg.run_exit_handlers()
-    except vfs.Crash:
-        pass
+            # a process that exits normally also finalizes its objects
+            clean_exit = True
+            A = ev = None  # reference counting finalizes them here, inside the session
+    except vfs.Crash as e:
+        # a killed process runs no finalizer: whatever it had in memory (also a half-constructed aggregator referenced only
+        # from the traceback) is parked forever
+        GRAVEYARD.append(e)
     except Exception as e:  # a session that dies with an exception is reported by the caller (LAST_ERROR)
         LAST_ERROR.append(e)
+        GRAVEYARD.append(e)
     finally:
+        if not clean_exit:
+            GRAVEYARD.append((ev, A))
         vfs.on_op = None
         n = vfs.fs.nops
         # the process is gone: nothing of it survives except the files
@@ -157,7 +169,8 @@ def session_length(init, subjects, with_exit):
 
 def blocks(tier):
     B = []
-    subj = ("s1", "s2") if tier == "quick" else ("s1", "s2", "s3")
+    # s3 has an empty prediction: its complete row legitimately contains blank cells (prec is not computable)
+    subj = ("s1", "s3") if tier == "quick" else ("s1", "s2", "s3")
     for init in INITS:
         for ex1 in (False, True):
             n1 = 40 if tier == "quick" else 52
@@ -285,7 +298,7 @@ FILES = dict(SCHEMES["plain"])
 def _ops():
     ops = [("new", "A"), ("new", "B"), ("new", "C"), ("restart", "A")]
     for x in "ABC":
-        for s in ("s1", "s2"):
+        for s in ("s1", "s3"):
             ops.append(("eval", x, s))
         ops.append(("exit", x))
     return ops
@@ -451,6 +464,11 @@ def _envconf(case, acc):
                         except Exception as e:  # must then fail identically on both
                             err = type(e).__name__
                         agg.drop_exit_handlers()
+                        # objects of this run die here, inside the run (finalizers, if any, must not fire during a later one)
+                        A = None
+                        import gc
+
+                        gc.collect()
                         if fsname == "vfs":
                             content = {os.path.basename(p): c for p, c in vfs.fs.files.items()}
                         else:
